@@ -21,6 +21,7 @@ import PolyplyVerif.Proofs.TopParse
 import PolyplyVerif.Proofs.C08Flatten
 import PolyplyVerif.Proofs.C08FlattenConv
 import PolyplyVerif.Proofs.C08WellFormedFlatten
+import PolyplyVerif.Proofs.C08SyntacticNames
 
 namespace PolyplyVerif.C08
 open PolyplyVerif PolyplyVerif.TopParse PolyplyVerif.Proofs.TopParse PolyplyVerif.Proofs.C08Flatten
@@ -560,6 +561,150 @@ example : wellFormed fsGood ["run", "system.top"] = true ∧
     (okOf (flatten fsGood ["run", "system.top"])).map (fun st => (okOf (readTop [(["flat.top"], st.out)] ["flat.top"])).map
         (fun g => (g.molecules, g.types.map (·.1), g.groups.length)))
       = some (some (["SOL", "SOL", "MOL1", "SOL"], ["bonds", "angles"], 2)) := by
+  decide
+
+end PolyplyVerif.C08
+
+/-! ### a purely syntactic replacement for `noMalformedMolNames` (`Proofs/C08SyntacticNames.lean`) -/
+
+namespace PolyplyVerif.C08
+open PolyplyVerif PolyplyVerif.TopParse PolyplyVerif.Proofs.TopParse PolyplyVerif.Proofs.C08Flatten
+
+/-- **The syntactic name-line condition implies the semantic one, for EVERY tree** (well formed or not).
+`molNamesSyntactic fs` scans the lines of each file of `fs` on its own (no reader is run, no include followed, no
+conditional evaluated): every `[ moleculetype ]` header is followed — before the next section header of the same
+file or the end of that file — by at least one content line, and the last such content line is `name nrexcl` with
+`nrexcl` an `int()` token (`nameShape`); pragma, `*`, blank and comment lines in between are ignored.  Then the tree
+reader never stops with "moleculetype-line" / "moleculetype-without-name" (`noMalformedMolNames`).
+Proof: invariant `NmInv` between the scan state and the per-file director (`nm_step`, `nm_lines`), every other
+error string of the director is not a name error (`doContent_frame`, `doPragma_frame`, `expandMols_notName`),
+induction on the include depth (`readFile_notName`).
+It is STRONGER than `noMalformedMolNames` only in that it also constrains what the reader never gets to: files of
+`fs` that are not (actively) included, and files in which the reader stops earlier with another error; for a file
+the reader runs through to its end without error and without an open conditional the two coincide (`finalize`
+fails in `readGroups` exactly when a collected group has no good name line). -/
+theorem C08_syntactic_names_sound (fs : FS) (top : Path) (hsyn : molNamesSyntactic fs = true) :
+    noMalformedMolNames fs top = true :=
+  molNames_sound fs top hsyn
+
+/-- non-vacuity: `fsGood` (6 files, 2 moleculetypes, one with a stored conditional) satisfies the condition; a tree
+with a malformed name line (three tokens; no integer; no name line at all; name line only in an included file)
+violates it, and the first of them is indeed stopped by the tree reader with a name error; a name line between
+stored conditional lines is accepted -/
+example : molNamesSyntactic fsGood = true ∧
+    molNamesSyntactic [(["t.top"], ["[ moleculetype ]", "MOL1 1 3", "[ atoms ]", "1 CT 1 RES A1 1"])] = false ∧
+    noMalformedMolNames [(["t.top"], ["[ moleculetype ]", "MOL1 1 3", "[ atoms ]", "1 CT 1 RES A1 1"])] ["t.top"] = false ∧
+    molNamesSyntactic [(["t.top"], ["[ moleculetype ]", "MOL1 x", "[ atoms ]"])] = false ∧
+    molNamesSyntactic [(["t.top"], ["[ moleculetype ]", "[ atoms ]"])] = false ∧
+    molNamesSyntactic [(["t.top"], ["[ moleculetype ]", "#include \"n.itp\"", "[ atoms ]"]), (["n.itp"], ["MOL1 1"])] = false ∧
+    molNamesSyntactic [(["t.top"], ["[ moleculetype ]", "#ifdef A", "MOL1 1 ; name", "#endif", "[ atoms ]"])] = true := by
+  decide
+
+/-- **`C08_flatten_equiv` with the syntactic hypothesis**: for a well-formed tree whose files pass the syntactic
+name-line scan, the tree is read iff its flattened text is read, and the observables agree. -/
+theorem C08_flatten_equiv_syntactic (fs : FS) (top : Path) (st : FlatSt)
+    (hwf : wellFormed fs top = true) (hfl : flatten fs top = .ok st) (hsyn : molNamesSyntactic fs = true) :
+    ((∃ gt, readTop fs top = .ok gt) ↔ (∃ gf, readSingle st.out = .ok gf)) ∧
+    (∀ gt gf, readTop fs top = .ok gt → readSingle st.out = .ok gf → ObsEq gt gf) :=
+  C08_flatten_equiv fs top st hwf hfl (molNames_sound fs top hsyn)
+
+example : wellFormed fsGood ["run", "system.top"] = true ∧ molNamesSyntactic fsGood = true ∧
+    (okOf (flatten fsGood ["run", "system.top"])).isSome = true := by decide
+
+/-- **`C08_flatten_equiv_same_reader` with the syntactic hypothesis**: `readTop` on both sides, an iff on success
+plus equality of the observables. -/
+theorem C08_flatten_equiv_same_reader_syntactic (fs : FS) (top : Path) (st : FlatSt) (p : Path)
+    (hwf : wellFormed fs top = true) (hfl : flatten fs top = .ok st) (hsyn : molNamesSyntactic fs = true) :
+    ((∃ gt, readTop fs top = .ok gt) ↔ (∃ gf, readTop [(p, st.out)] p = .ok gf)) ∧
+    (∀ gt gf, readTop fs top = .ok gt → readTop [(p, st.out)] p = .ok gf → ObsEq gt gf) := by
+  obtain ⟨hfwd, _, hiff⟩ := C08_flatten_equiv_same_reader fs top st p hwf hfl
+  refine ⟨hiff (molNames_sound fs top hsyn), ?_⟩
+  intro gt gf hgt hgf
+  obtain ⟨gf', hgf', hobs⟩ := hfwd gt hgt
+  rw [hgf] at hgf'
+  injection hgf' with e
+  rw [e]; exact hobs
+
+example : wellFormed fsGood ["run", "system.top"] = true ∧ molNamesSyntactic fsGood = true ∧
+    (okOf (flatten fsGood ["run", "system.top"])).map (fun st => (okOf (readTop [(["flat.top"], st.out)] ["flat.top"])).isSome)
+      = some true := by decide
+
+/-- `C08_include_order_irrelevant_partial` with the syntactic hypothesis on the second tree. -/
+theorem C08_include_order_irrelevant_syntactic (fs1 fs2 : FS) (top1 top2 : Path) (st1 st2 : FlatSt) (g1 : Glob)
+    (hwf1 : wellFormed fs1 top1 = true) (hwf2 : wellFormed fs2 top2 = true)
+    (hfl1 : flatten fs1 top1 = .ok st1) (hfl2 : flatten fs2 top2 = .ok st2) (hsame : st1.out = st2.out)
+    (hsyn : molNamesSyntactic fs2 = true) (hr1 : readTop fs1 top1 = .ok g1) :
+    ∃ g2, readTop fs2 top2 = .ok g2 ∧ ObsEq g1 g2 :=
+  C08_include_order_irrelevant_partial fs1 fs2 top1 top2 st1 st2 g1 hwf1 hwf2 hfl1 hfl2 hsame
+    (molNames_sound fs2 top2 hsyn) hr1
+
+end PolyplyVerif.C08
+
+namespace PolyplyVerif.C08
+open PolyplyVerif PolyplyVerif.TopParse PolyplyVerif.Proofs.TopParse PolyplyVerif.Proofs.C08Flatten
+
+/-- **The syntactic name-line condition is preserved by flattening**: if the tree is well formed and every file
+passes the scan, the flattened text passes it (as the one-file tree `[(p, st.out)]`, whatever `p`).  So the class
+`wellFormed ∧ molNamesSyntactic` of `C08_flatten_equiv_syntactic` is closed under `flatten`
+(with `C08_wellFormed_flatten`).  Proof: simulation `NmRel` between the scan of each file and the scan of the text
+emitted so far, induction on the include depth (`nfile`) and on the lines (`nlines`); well-formedness is what makes
+a moleculetype name section not straddle a file boundary (`nm_lookahead`: an `#include` is never placed between a
+`[ moleculetype ]` header and its name line).  The converse does not hold (example below): the flattened text
+knows nothing about files of `fs` that are not actively included. -/
+theorem C08_syntactic_names_flatten (fs : FS) (top : Path) (st : FlatSt) (p : Path)
+    (hwf : wellFormed fs top = true) (hfl : flatten fs top = .ok st) (hsyn : molNamesSyntactic fs = true) :
+    molNamesSyntactic [(p, st.out)] = true :=
+  molNames_flatten fs top st p hwf hfl hsyn
+
+/-- non-vacuity: `fsGood` meets the hypotheses and the conclusion is observed on its flattened text; the conclusion
+is not a triviality (a text with a malformed name line fails the scan); and the condition is strictly stronger than
+`noMalformedMolNames` exactly through files the reader never reads: a well-formed tree with an unused file holding
+a moleculetype without name line is read, its flattened text passes the scan, the tree does not. -/
+example : wellFormed fsGood ["run", "system.top"] = true ∧ molNamesSyntactic fsGood = true ∧
+    (match flatten fsGood ["run", "system.top"] with
+     | .ok st => molNamesSyntactic [(["flat.top"], st.out)]
+     | .error _ => false) = true ∧
+    molNamesSyntactic [(["flat.top"], ["[ moleculetype ]", "M", "[ atoms ]"])] = false ∧
+    (let fs : FS := [(["t.top"], ["[ system ]", "title"]), (["unused.itp"], ["[ moleculetype ]", "[ atoms ]"])]
+     wellFormed fs ["t.top"] = true ∧ noMalformedMolNames fs ["t.top"] = true ∧ molNamesSyntactic fs = false ∧
+     (match flatten fs ["t.top"] with
+      | .ok st => molNamesSyntactic [(["flat.top"], st.out)]
+      | .error _ => false) = true) := by
+  decide
+
+end PolyplyVerif.C08
+
+namespace PolyplyVerif.C08
+open PolyplyVerif PolyplyVerif.TopParse PolyplyVerif.Proofs.TopParse PolyplyVerif.Proofs.C08Flatten
+
+/-- **How much stronger the syntactic condition is: not at all on a file that is read to its end.**  If the
+director executes all lines of a file without error and no conditional is left open (whatever the include handler
+`inc` does), then `finalize` of that file stops with a malformed-name error EXACTLY when the scan `nmFile` of the
+file fails.  So `molNamesSyntactic` over-approximates `noMalformedMolNames` only through files (or ends of files)
+the reader never reaches. -/
+theorem C08_syntactic_names_exact_file (inc : Path → Glob → Except String Glob) (dir : Path) (raws : List String)
+    (g g' : Glob) (l' : Loc)
+    (hr : runLines inc dir (parseLines raws) (g, {}) = .ok (g', l')) (hc : l'.cond = none) :
+    (nmFile raws = true → ∀ e, finalize g' l' = .error e → isNameErr e = false) ∧
+    (nmFile raws = false → ∃ e, finalize g' l' = .error e ∧ isNameErr e = true) :=
+  nmFile_exact inc dir raws g g' l' hr hc
+
+/-- ... in particular for a one-file tree without `#include` the two conditions coincide. -/
+theorem C08_syntactic_names_exact_single (p : Path) (raws : List String)
+    (hn : ∀ raw ∈ raws, ∀ toks, classify raw = some (.pragma toks) → (toks.headD "" == "#include") = false)
+    (g : Glob) (l : Loc) (hr : flatRun raws = .ok (g, l)) (hc : l.cond = none) :
+    noMalformedMolNames [(p, raws)] p = molNamesSyntactic [(p, raws)] :=
+  molNames_exact_single p raws hn g l hr hc
+
+/-- non-vacuity: a file with a malformed name line and one with a good one are both run to the end with no open
+conditional; the scan, the reader's verdict and the error are as the theorem says -/
+example :
+    (okOf (flatRun ["[ moleculetype ]", "MOL1 1 3", "[ atoms ]", "1 CT 1 RES A1 1"])).map (·.2.cond) = some none ∧
+    nmFile ["[ moleculetype ]", "MOL1 1 3", "[ atoms ]", "1 CT 1 RES A1 1"] = false ∧
+    errOf (readSingle ["[ moleculetype ]", "MOL1 1 3", "[ atoms ]", "1 CT 1 RES A1 1"]) = some "moleculetype-line" ∧
+    (okOf (flatRun ["[ moleculetype ]", "MOL1 1", "[ atoms ]", "1 CT 1 RES A1 1"])).map (·.2.cond) = some none ∧
+    nmFile ["[ moleculetype ]", "MOL1 1", "[ atoms ]", "1 CT 1 RES A1 1"] = true ∧
+    errOf (readSingle ["[ moleculetype ]", "MOL1 1", "[ atoms ]", "1 CT 1 RES A1 1"]) = none := by
   decide
 
 end PolyplyVerif.C08
